@@ -295,7 +295,7 @@ func (r *Report) Finish(verifDir string, start time.Time, seed int, expl Explana
 			"analysed":            r.Analysed,
 			"known_findings":      res.KnownN,
 		},
-		"assumptions": expl.Assumptions,
+		"assumptions": append([]string{}, expl.Assumptions...),
 		"wall_s":      time.Since(start).Seconds(),
 		"violations":  res.Violations,
 	}
